@@ -152,6 +152,7 @@ type Options struct {
 	MaxSteps int
 	Trace    bool
 	KeepEnv  bool
+	StartAt  time.Duration // initial offset of the virtual clock from Epoch
 }
 
 // Run executes body as the root controlled thread, following the choice prefix
@@ -160,7 +161,7 @@ func Run(prefix []int, opt Options, body func()) *Outcome {
 	if S != nil {
 		panic("vsched: nested Run")
 	}
-	s := &Sched{yield: make(chan struct{}), prefix: prefix, out: &Outcome{}, maxSteps: opt.MaxSteps, trace: opt.Trace, objIDs: map[any]int{}, KeepEnv: opt.KeepEnv}
+	s := &Sched{yield: make(chan struct{}), prefix: prefix, out: &Outcome{}, maxSteps: opt.MaxSteps, trace: opt.Trace, objIDs: map[any]int{}, KeepEnv: opt.KeepEnv, now: opt.StartAt}
 	if s.maxSteps == 0 {
 		s.maxSteps = 20000
 	}
